@@ -6,6 +6,8 @@ use super::ber::parse_puncturing_pattern;
 use crate::{
     cli::Run, encoder::Encoder, gf2::GF2, simulation::puncturing::Puncturer, sparse::SparseMatrix,
 };
+#[cfg(ldpc_toolbox_verif)]
+use crate::verif_seam::std;
 use clap::Parser;
 use ndarray::Array1;
 use num_traits::{One, Zero};
